@@ -441,6 +441,9 @@ class AdvancedTag(object):
         for block in state['blocks']:
             self.appendBlock(block)
 
+        # Appending blocks (even the initial empty-string block) clears isSelfClosing, so restore it
+        self.isSelfClosing = state['isSelfClosing']
+
 
         #myAttributes = object.__getattribute__(self, '_attributes')
 
